@@ -338,6 +338,12 @@ def check_pit_token(ctx, rng):
                     await S.sleep_until_ms(t_arr + L + 5)
                 data = bytes(make_data(list(name), MetaInfo(), gen.rand_bytes(rng, rng.choice([0, 5, 300, 300, 1000, 1990, 2040, 4000, 8000])), DigestSha256Signer()))
                 ctx.klass('reply-size-' + ('<253' if len(data) < 253 else '<2048' if len(data) < 2048 else '>=2048'))
+                if rng.random() < 0.15:
+                    # the handler replies with something that is itself a link-layer packet (an application-made Nack for the Interest,
+                    # Data it wrapped to attach a CachePolicy): "the reply bytes", whatever they are, go out unmodified - with the token
+                    data = rc.make_lp(fragment=data, headers=[(0x334, rc.enc_tlv(0x335, b'\x01'))]) if rng.random() < 0.5 else \
+                        rc.make_lp(fragment=bytes(make_interest(list(name), InterestParam(nonce=seq))), nack_reason=150)
+                    ctx.event('reply-that-is-itself-an-envelope')
                 n0 = len(face.sent)
                 ret = reply(data)
                 sent = [b for t, b in face.sent[n0:]]
